@@ -156,6 +156,7 @@ class _VPopen:
         self.pid = _VPopen._next_pid[0]
         self.stdin = self.stdout = self.stderr = None
         self._captured = ['', '']
+        self._reading = False   # True while the parent drains the pipes (communicate)
         self._text = bool(kw.get('text') or kw.get('universal_newlines') or kw.get('encoding'))
 
     def __enter__(self):
@@ -172,6 +173,13 @@ class _VPopen:
             return self.returncode
         if self.rec['timeout'] == 'popen':
             self.rec['timeout'] = timeout  # the limit of the first wait is the timeout the process runs under
+        if not self._reading and self._remaining != INF:
+            # a pipe that nobody reads holds PIPE_CAPACITY bytes: a child that writes more blocks in write() for ever (as with the real
+            # subprocess.call(stdout=PIPE) / Popen.wait(): the documented dead-lock)
+            for handle, key in ((self._stdout, 'out'), (self._stderr, 'err')):
+                if handle == _real_subprocess.PIPE and len(self.beh.get(key, '').encode('utf-8', 'replace')) > PIPE_CAPACITY:
+                    self.rec['blocked_on_unread_pipe'] = key
+                    self._remaining = INF
         if timeout is not None and self._remaining > timeout:
             self.seam.clock += timeout
             if self._remaining != INF:
@@ -211,6 +219,7 @@ class _VPopen:
             _write(handle, text)
 
     def communicate(self, input=None, timeout=None):
+        self._reading = True
         self.wait(timeout=timeout)
         conv = (lambda x: x) if self._text else (lambda x: x.encode('utf-8'))
         return (conv(self._captured[0]) if self._stdout == _real_subprocess.PIPE else None,
@@ -234,6 +243,9 @@ class _VPopen:
             self.rec['sigterm_ignored'] = True
             return
         self._die(-sig)
+
+
+PIPE_CAPACITY = 65536
 
 
 def _program_name(args):
